@@ -258,3 +258,33 @@ func SameObject(a, b interface{}) bool {
 	}
 	return false
 }
+
+// And / Or / Not / Implies / InRange: boolean connectives that do not fork the symbolic execution
+// (Go's && and || compile to branches); natively plain functions.
+func And(bs ...bool) bool {
+	for _, b := range bs {
+		if !b {
+			return false
+		}
+	}
+	return true
+}
+
+func Or(bs ...bool) bool {
+	for _, b := range bs {
+		if b {
+			return true
+		}
+	}
+	return false
+}
+
+func Not(b bool) bool              { return !b }
+func Implies(a, b bool) bool       { return !a || b }
+func InRange(c, lo, hi byte) bool  { return c >= lo && c <= hi }
+func IteU64(c bool, a, b uint64) uint64 {
+	if c {
+		return a
+	}
+	return b
+}
